@@ -32,16 +32,16 @@ TABLE = {"load": "load", "sgen": "sgen", "asymmetric_load": "asymmetric_load", "
 TIER_CONSTANTS = {
     "quick": {"NSlots": "2", "ElemBuses": "{1, 2, 4}", "Pats": '{"bal", "unb"}', "Mods": '{"none"}',
               "VGs": '{"Dyn", "YNyn", "Yzn"}', "Topos": '{"radial", "cut"}',
-              "Cpls": '{"c4", "c2", "o4"}', "EgSets": '{"g13", "g31"}'},
+              "Cpls": '{"c4", "c2", "o4"}', "EgSets": '{"g13", "g31"}', "StrideB": "3", "StrideC": "8"},
     "thorough": {"NSlots": "2", "ElemBuses": "{1, 2, 4}", "Pats": '{"bal", "unb", "zero"}',
                  "Mods": '{"none", "oos", "half"}', "VGs": '{"Dyn", "YNyn", "Yzn", "Yy", "YNd"}',
                  "Topos": '{"radial", "ring", "cut", "toff", "notrafo"}',
-                 "Cpls": '{"c4", "c2", "o4", "o2", "c3"}', "EgSets": '{"g13", "g31", "g21", "g3x1", "g31x", "g321"}'},
+                 "Cpls": '{"c4", "c2", "o4", "o2", "c3"}', "EgSets": '{"g13", "g31", "g3x1", "g321"}',
+                 "StrideB": "2", "StrideC": "4"},
 }
 
-# quick tier: every configuration of family A is instantiated, of the families B / C (see family()) a seeded sample of
-# this many configurations per (busbar-section arrangement | ext_grid table); the thorough tier instantiates all
-QUICK_PER_GROUP = {"B": 80, "C": 90}
+# families B / C (see family()) are thinned IN THE MODEL: one configuration in StrideB / StrideC, the slice is chosen by
+# Offset = seed (Phase3.tla Slice); every configuration the model enumerates is instantiated
 
 _BASE = {}
 
@@ -246,6 +246,7 @@ def model_cases(tier, seed):
     try:
         lines = ["INIT Init", "NEXT Next", "CONSTANTS"]
         lines += ["  %s = %s" % kv for kv in TIER_CONSTANTS[tier].items()]
+        lines.append("  Offset = %d" % (abs(int(seed)) % 840))          # 840: a multiple of every stride in use
         for ln in open(os.path.join(SPEC_DIR, "Phase3.cfg")):
             if ln.startswith("INVARIANT"):
                 lines.append(ln.strip())
@@ -265,21 +266,7 @@ def model_cases(tier, seed):
                                "checked": s["req"]["checked"], "slackload": s["req"]["slackload"],
                                "fusedload": s["req"]["fusedload"], "family": family(jsonable(s["cfg"])),
                                "perphase": sorted(s["req"]["perphase"]), "sup": sorted(s["sup"])}})
-    skipped = 0
-    if tier == "quick":
-        groups = {}
-        for c in cases:
-            if c["meta"]["family"] != "A":
-                groups.setdefault((c["meta"]["family"], repr(c["cfg"]["cpl"]), repr(c["cfg"]["egs"]), c["cfg"]["topo"]),
-                                  []).append(id(c))
-        keep = set()
-        for g in sorted(groups):
-            ids = groups[g]
-            keep.update(random.Random("%d|%s" % (seed, g)).sample(ids, min(len(ids), QUICK_PER_GROUP[g[0]])))
-        n = len(cases)
-        cases = [c for c in cases if c["meta"]["family"] == "A" or id(c) in keep]
-        skipped = n - len(cases)
-    return r, cases, skipped
+    return r, cases
 
 
 def family(cfg):
@@ -295,10 +282,14 @@ SLACK_CLAUSES = ("C11_BalancedThirdsExtGrid", "C11_BalancedThirdsBus_Slack", "C1
 
 def feature(name, c):
     """Structural feature class of a violated clause (for the finding key only)."""
+    oos_row = any(not g["ins"] for g in c["cfg"]["egs"])
     if name in SLACK_CLAUSES:
+        if oos_row:
+            return "out_of_service_ext_grid_row"
         fam = "_several_ext_grids" if c["meta"]["family"] == "C" else ""
         return ("element_on_ext_grid_bus" if c["meta"]["slackload"] else "no_element_on_ext_grid_bus") + fam
-    fam = {"A": "", "B": "_busbar_section_%s" % c["cfg"]["cpl"]["state"], "C": "_several_ext_grids"}[c["meta"]["family"]]
+    fam = {"A": "", "B": "_busbar_section_%s" % c["cfg"]["cpl"]["state"],
+           "C": "_out_of_service_ext_grid_row" if oos_row else "_several_ext_grids"}[c["meta"]["family"]]
     return "%s_%s%s" % (c["cfg"]["vg"], c["meta"]["class"], fam)
 
 
@@ -309,10 +300,10 @@ def run(tier, seed, replay=None):
     if replay:
         keep = ("cfg", "plant", "rows", "unitp", "unitq", "meta")
         todo = [{k: replay["case"][k] for k in keep}]
-        mstates = mtrans = skipped = 0
+        mstates = mtrans = 0
         mviol = []
     else:
-        r, todo, skipped = model_cases(tier, seed)
+        r, todo = model_cases(tier, seed)
         mstates, mtrans, mviol = r.distinct, r.transitions, r.violations
     for name, st, raw in mviol:
         v.divergence("model-level: %s violated on the spec alone" % name, None)
@@ -341,8 +332,7 @@ def run(tier, seed, replay=None):
     v.coverage = {
         "states": mstates + st["states"], "transitions": mtrans + st["generated"],
         "traces_validated_against_impl": len(cases), "evaluations": len(cases),
-        "exhaustive": not replay and skipped == 0,
-        "model_configurations_not_instantiated": skipped,
+        "exhaustive": not replay,
         "instantiated_by_family": {f: sum(1 for c in cases if c["meta"]["family"] == f) for f in "ABC"},
         "fused_buses_both_carrying_live_elements": sum(1 for c in solved if c["meta"]["fusedload"]),
         "several_ext_grids_converged": sum(1 for c in solved if len(c["cfg"]["egs"]) > 1),
@@ -351,8 +341,8 @@ def run(tier, seed, replay=None):
         "distinct_nontrivial": len({repr(c["cfg"]) for c in nontriv}),
         "rule": "configurations of Phase3.tla for the tier's constants (vector group x topology x up to 2 elements "
                 "with kind/bus/connection/level pattern/modifier, slot permutations removed; family B: busbar section behind "
-                "a closed/open bus-bus switch; family C: several ext_grid rows in any table order) -- all of them in the "
-                "thorough tier, all of family A and a seeded sample per arrangement of B / C in the quick tier; each is solved by "
+                "a closed/open bus-bus switch; family C: several ext_grid rows in any table order; B and C thinned in the model "
+                "to one configuration in StrideB / StrideC, slice chosen by the seed); each is solved by "
                 "runpp_3ph and runpp; non-trivial = distinct configuration with a documented vector group whose "
                 "runpp_3ph converged and that has at least one live (in-service, supplied) element",
         "balanced_converged": len(bal), "unbalanced_converged": len(unb),
